@@ -30,7 +30,7 @@ type params struct {
 }
 
 func Run(k *report.Check) {
-	k.Rule = "single database tier: every history up to the depth over {write burst (rotates and flushes), Checkpoint, retention update (keep newest / keep two newest), reopen from a retained handle in the same process (old database object dropped or kept alive; same or new directory), forced garbage collection (runtime.GC + cleanup barrier; two rounds at the end of every execution)}; after every action every file named by a retained checkpoint's document must exist, a scratch restore of every retained handle on a copy of the files must reproduce the captured map, the live database must scan and point-read correctly (touching every table of its level set), and WAL files referenced only by dropped checkpoints must be gone after the retention update. Ownership part (scheduler): the real OperatorPartition.ExclusivelyOwnsTable with 1-3 neighbours, every combination of {does not need it, needs it, errors, errors late, answers late, no overlap} and every interleaving of its goroutines within the delay bound: (true, nil) only if every overlapping neighbour answered that it does not need the table. Neighbour tier: a table shared by operators after a rescale with every combination of neighbour answers {needs it, does not, error, hangs}. non-trivial = distinct (file set, retained ids, live databases) states reached by an execution in which a cleanup deleted at least one file"
+	k.Rule = "single database tier: every history up to the depth over {write burst (rotates and flushes), Checkpoint, retention update (keep newest / keep two newest), reopen from a retained handle in the same process (old database object dropped or kept alive; same or new directory), forced garbage collection (runtime.GC + cleanup barrier; two rounds at the end of every execution)}; after every action every file named by a retained checkpoint's document must exist, a scratch restore of every retained handle on a copy of the files must reproduce the captured map, the live database must scan and point-read correctly (touching every table of its level set), and WAL files referenced only by dropped checkpoints must be gone after the retention update - but not earlier: after every single storage step of a retention update (the states a crash or a failed save leaves behind) the checkpoints file stored at that moment must list only checkpoints whose write-ahead logs still exist. Ownership part (scheduler): the real OperatorPartition.ExclusivelyOwnsTable with 1-3 neighbours, every combination of {does not need it, needs it, errors, errors late, answers late, no overlap} and every interleaving of its goroutines within the delay bound: (true, nil) only if every overlapping neighbour answered that it does not need the table. Neighbour tier: a table shared by operators after a rescale with every combination of neighbour answers {needs it, does not, error, hangs}. non-trivial = distinct (file set, retained ids, live databases) states reached by an execution in which a cleanup deleted at least one file"
 	k.Assumptions = []string{"a forced runtime.GC plus a sentinel cleanup barrier runs every cleanup of unreachable tables: reported deletions are real; completeness depends on the collector finding the garbage", "MemoryFilesystem"}
 	k.Budget(150, 1500)
 	k.Parts(k.Pick(5, 6))
@@ -127,6 +127,51 @@ func filesOf(doc []byte, id uint64) (wals, tables []string, found bool) {
 		return wals, tables, true
 	}
 	return nil, nil, false
+}
+
+// walsOfAll lists, per checkpoint id, the WAL files a stored checkpoints document references.
+func walsOfAll(doc []byte) map[uint64][]string {
+	var d struct {
+		Checkpoints []struct {
+			ID   uint64 `json:"id"`
+			WALs []struct {
+				URI string `json:"uri"`
+			} `json:"wals"`
+		} `json:"checkpoints"`
+	}
+	if json.Unmarshal(doc, &d) != nil {
+		return nil
+	}
+	out := map[uint64][]string{}
+	for _, c := range d.Checkpoints {
+		for _, w := range c.WALs {
+			out[c.ID] = append(out[c.ID], w.URI)
+		}
+	}
+	return out
+}
+
+// checkRetentionOrder looks at the file set after every storage step of a retention update (the
+// states a crash or a failed save would leave behind): whatever checkpoints file is stored at
+// that moment, the write-ahead logs of every checkpoint it lists still exist - logs go only once
+// the update has been saved.
+func checkRetentionOrder(c *mc.Ctx, evs []dkvh.FSEvent, docURI, what string) {
+	for i, ev := range evs {
+		if ev.Files == nil {
+			continue
+		}
+		doc, ok := ev.Files[docURI]
+		if !ok {
+			continue
+		}
+		for id, ws := range walsOfAll(doc) {
+			for _, w := range ws {
+				if _, ok := ev.Files[w]; !ok {
+					c.FailSig("wal-removed-before-retention-saved", "%s: after storage step %d (%s) the stored checkpoints file still lists checkpoint %d, whose write-ahead log %s is already gone: a crash or a failed save here leaves a checkpoint that cannot be read", what, i+1, rel(ev.Op), id, rel(w))
+				}
+			}
+		}
+	}
 }
 
 //go:noinline
@@ -315,8 +360,20 @@ func single(c *mc.Ctx) {
 				ids = append(ids, h.id)
 			}
 			c.Op("Retain%v", ids)
-			if err := cur().db.UpdateRetainedCheckpoints(ids); err != nil {
+			docURI := "" // the checkpoints file of the live database's own directory
+			for _, h := range retained {
+				if h.dir == cur().dir {
+					docURI = h.h.URI
+				}
+			}
+			root.Record(true)
+			err := cur().db.UpdateRetainedCheckpoints(ids)
+			root.Record(false)
+			if err != nil {
 				c.Failf("UpdateRetainedCheckpoints(%v): %v", ids, err)
+			}
+			if c.Fresh() && docURI != "" {
+				checkRetentionOrder(c, root.PeekLog(), docURI, fmt.Sprintf("Retain%v", ids))
 			}
 			verify(fmt.Sprintf("Retain%v", ids))
 		case 5, 6, 7, 8:
